@@ -278,7 +278,7 @@ fn gen_delegation_method<'s>(
     attr: &'s EntraitTraitAttr,
     contains_async: ContainsAsync,
 ) -> DelegatingMethod<'s> {
-    let fn_sig = &trait_fn.sig();
+    let fn_sig = &delegating_fn_sig(trait_fn);
     let fn_ident = &fn_sig.ident;
     let impl_t = &generic_idents.impl_t;
 
@@ -348,6 +348,14 @@ fn gen_delegation_method<'s>(
     }
 }
 
+/// The delegating method needs a plain identifier for every parameter (the trait
+/// declaration may use `_`), none of which may shadow the method it calls.
+fn delegating_fn_sig(trait_fn: &TraitFn) -> syn::Signature {
+    let mut fn_sig = trait_fn.sig().clone();
+    crate::signature::fn_params::fix_fn_param_idents(&mut fn_sig);
+    fn_sig
+}
+
 struct DelegatingMethod<'s> {
     trait_fn: &'s TraitFn,
     call: TokenStream,
@@ -363,7 +371,7 @@ impl ToTokens for DelegatingMethod<'_> {
             push_tokens!(stream, attr);
         }
 
-        self.trait_fn.sig().to_tokens(stream);
+        delegating_fn_sig(self.trait_fn).to_tokens(stream);
         syn::token::Brace::default().surround(stream, |stream| {
             // if self.needs_async_move && self.trait_fn.entrait_sig.associated_fut.is_some() {
             if false {
